@@ -357,6 +357,10 @@ def object_shapes(nm: Namer) -> Dict[str, Callable[[T, Ctx], Optional[T]]]:
             return Obj("dataclass", nm("O"), (F("a", x, cons=(("min_len", 2),)),))
         if isinstance(rx, Coll) and rx.kind in ("list", "seq"):
             return Obj("dataclass", nm("O"), (F("a", x, cons=(("max_items", 1),)),))
+        if isinstance(rx, Con) and rx.base == INT:
+            # a second, looser layer of the same keywords over a constrained type (one of whose bounds is 0):
+            # both layers hold, i.e. the strictest bound of each keyword
+            return Obj("dataclass", nm("O"), (F("a", x, cons=(("min", -2), ("max", 5))),))
         if isinstance(rx, (Lit, EnumT)):
             # constraints on a literal / enum position: checked on the datum like anywhere else
             return Obj("dataclass", nm("O"), (F("a", x, cons=(("max", 1), ("pattern", "^a"))),))
